@@ -493,7 +493,7 @@ def buffer_order(facts, res, tier):
             (pb, pk), (sb, sk) = next(iter(p_)), next(iter(s_))
             if pb != sb or pk != "ptr" or sk != "size":
                 res.violation(R, f, "%s::get%sPtr" % (cls, name), "accessor-pair:" + name, fn["l"][1], "get%sPtr hands out the %s of %s, get%sSize the %s of %s: not pointer and size of one block" % (name, pk, pb, name, sk, sb))
-    if tier == "thorough":
+    if tier in ("quick", "thorough"):      # the Specx / StarPU executors (declaration stubs) are analysed on every run: the unit tests never compile them, so nothing else would notice a change there
         sf = tbf.scan("starpu")
         res.units.append("umbrella TU 'starpu' (declaration stub): TbfStarPUHandleBuilder(Tsm)")
         for fn in sf.functions:
